@@ -7,13 +7,17 @@ WORDS = ["aap", "Aap", "AAP", "noot", "Noot", "mies", "wim", "zus", "jet", "teun
          "weide", "does", "hok", "duif", "schapen", "", "a", "A", "a ", "a  ", "a\t", "b", "é", "É", "z", "Zeta", "zeta"]
 
 
+# the extremes of every integer serial type width (1, 2, 3, 4, 6, 8 bytes) and their neighbours
+WIDTH_EDGES = [s * (2 ** (8 * w - 1)) + d for w in (1, 2, 3, 4, 6) for s in (1, -1) for d in (-1, 0, 1)]
+
+
 def rand_value(rng, kinds="nirtb"):
     k = rng.choice(kinds)
     if k == "n":
         return None
     if k == "i":
         return rng.choice([0, 1, -1, 2, 127, 128, -129, 32768, 2 ** 31, -2 ** 31 - 1, 2 ** 53, 2 ** 53 + 1, 2 ** 63 - 1, -2 ** 63,
-                           rng.randint(-1000, 1000), rng.randint(-2 ** 40, 2 ** 40)])
+                           rng.randint(-1000, 1000), rng.randint(-2 ** 40, 2 ** 40), rng.choice(WIDTH_EDGES), rng.choice(WIDTH_EDGES)])
     if k == "r":
         return rng.choice([0.5, -0.5, 1.5, 2.0 ** 53, 2.0 ** 63, -2.0 ** 63, 1e100, -1e100, 1e-10, float(rng.randint(-50, 50)) + 0.25,
                            rng.random() * 1000])
